@@ -214,7 +214,9 @@ func (g *gen) step() Step {
 		return Step{Op: op, Dst: dst, Src: []int{s}, Args: a}
 	}
 	al := m.AttributeLength()
-	switch g.r.Intn(34) {
+	switch g.r.Intn(37) {
+	case 34, 35, 36:
+		return un("Misc", args("kind", 1+g.r.Intn(11), "k", g.r.Intn(5)))
 	case 30:
 		return un("Normalize", args("id", g.pickAttr(m, 3, 2)))
 	case 31:
